@@ -42,6 +42,10 @@ CFG = {
             "subgraph / random; operations: reads 34%, parameter updates 18% (1/6 with the same value), connects 20%, "
             "disconnects 10% (array delete at index, '+k', '0k', clear), runs of 3-10 idle reads 8%, invalid port names / "
             "indices 5% (must be rejected), read-everything 5%; cycle-closing connects are dropped by the generator; "
+            "plus 3 fixed + N/5 random CLazy histories over processors that SKIP inputs (harness gate type: stop after Gate / after A "
+            "depending on the gate value; the repository's repeat.LineNodeData with Times 0/2..5; wiring through SetInput, parameter "
+            "updates, reads, idle reads), evaluated through lrun/lvalue/lstale; every history runs in a child process (batches of 40 "
+            "with a deadline): a crash or hang of the implementation becomes a failing case with that history as replay; "
             "distinct by history; non-trivial = at least one executing read and one edit",
     "trusted": ["execution counters are counted by the harness-defined Process() methods",
                 "the harness checks Outdated() == (State() == Stale) on every struct node after every operation itself (Go side)",
